@@ -566,6 +566,10 @@ func (p *Parser) evaluateBuiltInFunction(tokenType lexer.TokenType, keyword stri
 			if err != nil {
 				return nil, err
 			}
+
+			if expr.ValueType().DataType() == DATA_TYPE_UNKNOWN {
+				return nil, p.expectedError(fmt.Sprintf("a value as argument for %s", keyword), nextToken)
+			}
 			expressions = append(expressions, expr)
 			nextToken = p.peek()
 			nextTokenType := nextToken.Type()
